@@ -44,6 +44,9 @@ PROFILES = {
     "hostile": dict(clients=3, steps=(5, 14), menu=["get", "get", "set", "mget", "del", "del", "mset", "ping", "bad"],
                     kinds=["ok", "ok", "nil"], slots=["A", "A2", "B", "C"], burst=(1, 4)),
     "redirorder": dict(directed=True),
+    "redirmany": dict(directed=True),
+    "partialloss": dict(directed=True, conns=2),
+    "ripen": dict(directed=True, timeout=True, real_timeout_ms=300),
     "leftover": dict(directed=True),
     "redirexpire": dict(directed=True, timeout=True),
     "quit": dict(clients=2, steps=(3, 9), menu=["get", "set", "mget", "ping", "quit"],
@@ -57,7 +60,9 @@ def cfg_for(profile):
     if p.get("unowned"):
         cfg["unowned"] = True
     if p.get("timeout"):
-        cfg["timeoutMs"] = 3600000
+        cfg["timeoutMs"] = p.get("real_timeout_ms", 3600000)
+    if p.get("conns"):
+        cfg["conns"] = p["conns"]
     return cfg
 
 
@@ -294,7 +299,85 @@ def gen_leftover(rng, sid):
     return {"id": sid, "role": "", "steps": steps}
 
 
-DIRECTED = {"redirorder": gen_redirorder, "redirexpire": gen_redirexpire, "leftover": gen_leftover}
+def gen_ripen(rng, sid):
+    """Directed, real time (request timeout 300 ms): requests stall on a node while the loop keeps being woken up at
+    intervals shorter than the timeout; when more than the timeout has passed each of them must have got its timeout error,
+    in place, and the connection must still work."""
+    nodes = ["n1", "n2", "n3"]
+    home = {"A": "n1", "B": "n2", "C": "n3"}
+    stall = rng.choice("ABC")
+    other = rng.choice([x for x in "ABC" if x != stall])
+    mk = lambda s, k=None: {"k": k or rng.choice(["get", "set"]), "slots": [s], "args": []}
+    pre = [mk(other)] if rng.random() < 0.5 else []
+    mid = [mk(stall)] + ([{"k": "mget", "slots": [stall, other], "args": []}] if rng.random() < 0.4 else [])
+    post = [mk(other), {"k": "ping", "slots": [], "args": []}] if rng.random() < 0.7 else [mk(other)]
+    steps = [{"stim": [{"op": "send", "c": "c1", "reqs": pre + mid + post}]}, {"stim": []},
+             {"stim": [{"op": "answer", "n": home[other], "kind": "ok"} for _ in range(len(pre) + len(post) + 1)]},
+             {"stim": [{"op": "ripen"}]}, {"stim": []},
+             {"stim": [{"op": "send", "c": "c1", "reqs": [mk(other), mk(stall)]}]}, {"stim": []},
+             {"stim": [{"op": "answer", "n": n, "kind": "ok"} for n in nodes for _ in range(4)], "settle": True},
+             {"stim": [{"op": "answer", "n": n, "kind": "ok"} for n in nodes for _ in range(4)], "settle": True}]
+    for st in steps:
+        st.setdefault("settle", False)
+        st.setdefault("noIter", False)
+        for x in st["stim"]:
+            for k, v in (("c", ""), ("n", ""), ("reqs", []), ("hex", ""), ("kind", ""), ("cls", ""), ("to", ""), ("count", 0), ("src", ""), ("text", "")):
+                x.setdefault(k, v)
+    return {"id": sid, "steps": steps}
+
+
+def gen_partialloss(rng, sid):
+    """Directed, two connections per node: a node drops one of its connections and keeps the other; a tick passes (the loop's
+    once-a-second housekeeping looks at the pools); then more requests for that node and for another one."""
+    nodes = ["n1", "n2", "n3"]
+    home = {"A": "n1", "B": "n2", "C": "n3"}
+    s1 = rng.choice("ABC")
+    s2 = rng.choice([x for x in "ABC" if x != s1])
+    mk = lambda s: {"k": rng.choice(["get", "set"]), "slots": [s], "args": []}
+    steps = []
+    for _ in range(rng.randint(2, 4)):      # (every request takes the pool's next connection: both get opened and used)
+        steps += [{"stim": [{"op": "send", "c": "c1", "reqs": [mk(s1)]}]}, {"stim": []}, {"stim": [{"op": "answer", "n": home[s1], "kind": "ok"}]}]
+    for rnd in range(rng.randint(1, 3)):
+        steps += [{"stim": [{"op": "bclose1", "n": home[s1], "count": rng.randint(0, 1)}]}, {"stim": []},
+                  {"stim": [{"op": "tick"}]}, {"stim": []}]
+        for _ in range(rng.randint(2, 4)):
+            steps += [{"stim": [{"op": "send", "c": rng.choice(["c1", "c2"]), "reqs": [mk(s1)] + ([mk(s2)] if rng.random() < 0.4 else [])}]}, {"stim": []},
+                      {"stim": [{"op": "answer", "n": home[s1], "kind": "ok"}, {"op": "answer", "n": home[s2], "kind": "ok"}]}]
+    steps.append({"stim": [], "settle": True})
+    for rnd in range(2):
+        steps.append({"stim": [{"op": "answer", "n": n, "kind": "ok"} for n in nodes for _ in range(4)], "settle": True})
+    for st in steps:
+        st.setdefault("settle", False)
+        st.setdefault("noIter", False)
+        for x in st["stim"]:
+            for k, v in (("c", ""), ("n", ""), ("reqs", []), ("hex", ""), ("kind", ""), ("cls", ""), ("to", ""), ("count", 0), ("src", ""), ("text", "")):
+                x.setdefault(k, v)
+    return {"id": sid, "steps": steps}
+
+
+def gen_redirmany(rng, sid):
+    """Directed: a multi-key request over many slots (17-28 distinct ones, all owned by one node) every fragment of which
+    is redirected once to another node."""
+    n = rng.randint(17, 28)
+    slots = ["#%d" % s for s in rng.sample(range(0, 5400), n)]     # the first master's range
+    kind = rng.choice(["mget", "del", "mset", "mget"])
+    rk = rng.choice(["moved", "ask"])
+    to = rng.choice(["n2", "n3"])
+    extra = [{"k": "get", "slots": ["B"], "args": []}] if rng.random() < 0.5 else []
+    steps = [{"stim": [{"op": "send", "c": "c1", "reqs": [{"k": kind, "slots": slots, "args": []}] + extra}]}, {"stim": []},
+             {"stim": [{"op": "answer", "n": "n1", "kind": rk, "to": to} for _ in range(n)]}, {"stim": [], "settle": True},
+             {"stim": [{"op": "answer", "n": x, "kind": "ok"} for x in ("n2", "n3") for _ in range(n + 2)], "settle": True},
+             {"stim": [{"op": "answer", "n": x, "kind": "ok"} for x in ("n1", "n2", "n3") for _ in range(3)], "settle": True}]
+    for st in steps:
+        st.setdefault("settle", False)
+        st.setdefault("noIter", False)
+        for x in st["stim"]:
+            for k, v in (("c", ""), ("n", ""), ("reqs", []), ("hex", ""), ("kind", ""), ("cls", ""), ("to", ""), ("count", 0), ("src", ""), ("text", "")):
+                x.setdefault(k, v)
+    return {"id": sid, "steps": steps}
+
+
+DIRECTED = {"partialloss": gen_partialloss, "ripen": gen_ripen, "redirmany": gen_redirmany, "redirorder": gen_redirorder, "redirexpire": gen_redirexpire, "leftover": gen_leftover}
 
 
 def gen_many(seed, profile, n):
